@@ -331,7 +331,10 @@ pub fn run_wasm(case: &str, wasm: &[u8], gc: bool, stats: &mut Stats) {
     let bytes = match out::catch(|| m.emit_wasm()) {
         Ok(b) => b,
         Err(p) => {
-            out::oracle(case, false, "C02:emit-panic", &format!("{} | only: {}", &p[..p.len().min(200)], only));
+            // a lookup of the emit-time map that panics inside a custom section's `data` is this
+            // property's failure: the map must know every emitted entity
+            let key = if p.contains("_index") { "C19:emit-map-lookup-panicked" } else { "C02:emit-panic" };
+            out::oracle(case, false, key, &format!("{} | only: {}", &p[..p.len().min(200)], only));
             return;
         }
     };
@@ -446,7 +449,9 @@ pub fn main(seed: u64, tier: &str, only: Option<&str>) {
         let mut rng = Rng::new(seed ^ 0x3a95, case as u64);
         let mut g = if case % 4 == 0 { GenCfg::mvp() } else if case % 4 == 1 { GenCfg::full() } else { GenCfg::random(&mut rng) };
         g.extern_elem_global = false;
-        g.customs = false;
+        // raw custom sections in the input are emitted before the section that reads the map
+        g.customs = case % 2 == 1;
+        g.junk_debug = false;
         g.producers = false;
         g.names = false;
         let (wasm, _) = gen::gen_valid(&mut rng, &g);
